@@ -189,6 +189,8 @@ type multipartResponseAggregator struct {
 	initialResponse *graphql.Response
 	deferResponses  []*graphql.Response
 	done            chan bool
+	// open is true while the last delimiter written was not the closing boundary
+	open bool
 }
 
 // newMultipartResponseAggregator creates a new multipartResponseAggregator
@@ -218,10 +220,26 @@ func newMultipartResponseAggregator(
 	return a
 }
 
-// Done flushes the remaining responses
+// Done flushes the remaining responses and ends the stream
 func (a *multipartResponseAggregator) Done(w http.ResponseWriter) {
 	a.done <- true
 	a.flush(w)
+
+	a.mu.Lock()
+	defer a.mu.Unlock()
+	if !a.open {
+		return
+	}
+	// The operation ended (e.g. its context did) after a payload that announced more: tell the
+	// client that nothing follows and close the multipart body.
+	writeContentTypeHeader(w)
+	fmt.Fprint(w, `{"hasNext":false}`)
+	fmt.Fprintf(w, "\r\n")
+	writeBoundary(w, a.boundary, true)
+	a.open = false
+	if flusher, ok := w.(http.Flusher); ok {
+		flusher.Flush()
+	}
 }
 
 // Add accumulates the responses
@@ -297,5 +315,6 @@ func (a *multipartResponseAggregator) flush(w http.ResponseWriter) {
 	// Final response will have a closing boundary with two dashes at the end.
 	fmt.Fprintf(w, "\r\n")
 	writeBoundary(w, a.boundary, !hasNext)
+	a.open = hasNext
 	flusher.Flush()
 }
